@@ -281,11 +281,18 @@ func (q *chunkQueue) Retry(index uint32) {
 	delete(q.chunkReturned, index)
 }
 
-// RetryAll schedules all chunks to be retried, without refetching them.
+// RetryAll schedules all chunks to be retried, without refetching them. The fetchers of the
+// restore attempt that ended are gone: chunks they had been allocated but that never arrived
+// become available for allocation again, otherwise nobody would ever request them.
 func (q *chunkQueue) RetryAll() {
 	q.Lock()
 	defer q.Unlock()
 	q.chunkReturned = make(map[uint32]bool)
+	for index := range q.chunkAllocated {
+		if q.chunkFiles[index] == "" {
+			delete(q.chunkAllocated, index)
+		}
+	}
 }
 
 // Size returns the total number of chunks for the snapshot and queue, or 0 when closed.
